@@ -132,6 +132,19 @@ func VerifH_C14_Mux() {
 		verifAssert(was == want, "C14.mux_invokes_exactly_matching")
 	}
 	verifAssert(k == len(called), "C14.mux_registration_order")
+	// a handler registered after a topic has already been served takes part in the next dispatch
+	late := verifFilterBytes("late", verifChoice("latelen", verifParam("maxmf", 2))+1)
+	lateErr := mux.Handle(string(late), HandlerFunc(func(m *Message) { called = append(called, 99) }))
+	verifAssert((lateErr == nil) == refValidFilter(late), "C14.mux_handle_error_iff_invalid")
+	called = nil
+	mux.Serve(&Message{Topic: string(t)})
+	gotLate := len(called) > 0 && called[len(called)-1] == 99
+	wantLate := false
+	if lateErr == nil {
+		wantLate = refMatch(late, t)
+	}
+	verifAssert(gotLate == wantLate, "C14.mux_late_handler_dispatched")
+	verifReach("served-again")
 }
 
 func verifLetterBytes(key string, n int) []byte {
